@@ -193,6 +193,11 @@ def extract_item(e):
     end = match_brace(t, s)
     item = t[s:end]
     item = rewrite(item, e.get("keep_pub", False))
+    for ins in e.get("insert", []):
+        # annotation insertion (loop invariants / decreases): `after` must occur exactly once in the item
+        if item.count(ins["after"]) != 1:
+            raise ExtractError(f"lost anchor for annotation: `{ins['after']}` in {e['key']}")
+        item = item.replace(ins["after"], ins["after"] + "\n" + ins["text"] + "\n")
     if e.get("msg_rule"):
         item = msg_rule(item)
     if e.get("kind", "fn") == "fn":
@@ -206,6 +211,8 @@ def extract_item(e):
             else:
                 sig = sig.rstrip() + " -> " + e["ret"] + " "
         item = sig.rstrip() + "\n" + (e.get("contract", "").rstrip() + "\n" if e.get("contract") else "") + body
+        if e.get("attrs"):
+            item = e["attrs"] + "\n" + item
     return item
 
 
